@@ -11,7 +11,7 @@ From Coq Require Import QArith Reals List.
 From Coquelicot Require Import Coquelicot.
 Import ListNotations.
 From TT Require Import Num NumR NumQ ParamQ ParamI M_leapfrog M_lf_oracle G_leapfrog P_leapfrog_gen P_leapfrog P_leapfrog_param P_leapfrog_jac.
-From TT Require P_leapfrog_det.
+From TT Require P_leapfrog_det P_leapfrog_ndim.
 Open Scope R_scope.
 
 (* The integrator assembled from the four expressions regenerated from LeapfrogIntegrator.__call__ (translator T9,
@@ -75,10 +75,62 @@ Proof.
   intros. unfold Fq, Fp. change ([q], [p]) with (lift (q, p)). rewrite leapfrog_lift. reflexivity.
 Qed.
 Print Assumptions C16_Fq_Fp_are_the_model.
-(* volume_preserving_partial: in dimension n > 1 with a nonlinear gradient, "Jacobian determinant = 1"
-   follows from C16_leapfrog_shear_decomposition + C16_shear_jacobians_det_one (end of this file) by
-   the n-dimensional chain rule, which is NOT formalised; on the implementation the determinant is
-   measured by central differences on every run. *)
+(* ANY dimension, ANY (Frechet) differentiable gradient, diagonal or dense inverse mass matrix — the n-dimensional
+   chain rule, formalised (Coquelicot's filterdiff on normed modules; R^(n+1) is [Un n] = R x ... x R, read as the
+   model's lists through the coordinates [emb]):
+   (1) through the coordinates, the list model IS the generic map [gleap] (kick, L x [drift; kick], kick back);
+   (2) the inverse mass matrix acts as a (bounded) linear map;
+   (3) when the gradient is differentiable, the implemented map is differentiable at EVERY point and its
+       differential is a composition of 2L+2 linear shears (dq,dp) -> (dq, dp - c Hess(q_k) dq) and
+       (dq,dp) -> (dq + c Minv dp, dp), the Hessians taken along the trajectory;
+   (4) hence every determinant-like functional (multiplicative, extensional, one on the identity and on the two
+       kinds of block shear — mathcomp's \det has these properties, C16_shear_jacobians_det_one below) gives the
+       Jacobian of the implemented map the value ONE. *)
+Theorem C16_volume_preserving_any_dimension :
+  forall (n : nat) (grad : list R -> list R) (Minv : mass R),
+    wf_grad (S n) grad -> wf_minv (S n) Minv ->
+    let g := P_leapfrog_ndim.gU n grad in
+    let Mi := P_leapfrog_ndim.MiU n Minv in
+    (forall eps L x, leapfrog NumR eps Minv grad L (P_leapfrog_ndim.embs n x)
+                     = P_leapfrog_ndim.embs n (P_leapfrog_ndim.gleap g Mi eps L x)) /\
+    is_linear Mi /\
+    forall Dg, (forall q, filterdiff g (locally q) (Dg q)) ->
+      forall eps L x,
+        (exists l, length l = (2 * L + 2)%nat /\
+                   filterdiff (P_leapfrog_ndim.gleap g Mi eps L) (locally x) (P_leapfrog_ndim.lcomp Dg Mi l)) /\
+        forall det : (P_leapfrog_ndim.Un n * P_leapfrog_ndim.Un n -> P_leapfrog_ndim.Un n * P_leapfrog_ndim.Un n) -> R,
+          (forall f h, is_linear f -> is_linear h -> det (fun d => h (f d)) = det h * det f) ->
+          (forall f h, (forall d, f d = h d) -> det f = det h) ->
+          det (fun d => d) = 1 ->
+          (forall A, is_linear A -> det (fun d => (fst d, plus (snd d) (A (fst d)))) = 1) ->
+          (forall B, is_linear B -> det (fun d => (plus (fst d) (B (snd d)), snd d)) = 1) ->
+          exists Df, filterdiff (P_leapfrog_ndim.gleap g Mi eps L) (locally x) Df /\ det Df = 1.
+Proof. exact P_leapfrog_ndim.leapfrog_list_model_ndim. Qed.
+Print Assumptions C16_volume_preserving_any_dimension.
+(* the coordinates lose nothing: lists of length n+1 and Un n are in bijection *)
+Theorem C16_coordinates_are_a_bijection : forall n,
+  (forall u, P_leapfrog_ndim.unemb n (P_leapfrog_ndim.emb n u) = u) /\
+  (forall l, length l = S n -> P_leapfrog_ndim.emb n (P_leapfrog_ndim.unemb n l) = l).
+Proof. intro n. split; [apply P_leapfrog_ndim.unemb_emb | apply P_leapfrog_ndim.emb_unemb]. Qed.
+(* the same statement on an arbitrary normed module U (no coordinates), the differential written out along the
+   trajectory *)
+Theorem C16_leapfrog_differential_any_normed_module :
+  forall (U : NormedModule R_AbsRing) (g : U -> U) (Dg : U -> U -> U) (Mi : U -> U),
+  (forall q, filterdiff g (locally q) (Dg q)) -> is_linear Mi ->
+  forall eps L x,
+    filterdiff (P_leapfrog_ndim.gleap g Mi eps L) (locally x)
+      (P_leapfrog_ndim.lcomp Dg Mi (P_leapfrog_ndim.dlist g Mi (P_leapfrog_ndim.leap_list eps L) x)).
+Proof. exact @P_leapfrog_ndim.gleap_differential_along_trajectory. Qed.
+Print Assumptions C16_leapfrog_differential_any_normed_module.
+(* dimension one with the genuine 2 x 2 determinant of the differential (det2), no abstract functional *)
+Theorem C16_volume_preserving_dim1_frechet : forall mi (g g' : R -> R),
+  (forall x, is_derive g x (g' x)) -> forall eps L x,
+  exists Df, filterdiff (sleap mi g eps L) (locally x) Df /\ P_leapfrog_ndim.det2 Df = 1.
+Proof. exact P_leapfrog_ndim.gleap_dim1_volume. Qed.
+Print Assumptions C16_volume_preserving_dim1_frechet.
+(* what is still not formalised: that the abstract determinant functional on Un n x Un n is the determinant of
+   the matrix of partial derivatives (mathcomp's \det over the reals needs a ring structure on R that is not
+   installed here); on the implementation the determinant is measured by central differences on every run. *)
 
 (* The positions written into the parameters form a trajectory that ends at the returned position. *)
 Theorem C16_trace_ends_at_result : forall eps Minv grad L x,
